@@ -535,7 +535,7 @@ def call(fn, args=(), kw=()):
     if name in _REDUCE_ALIASES and args:
         # np.maximum.reduce(x) / np.add.reduce(x, axis=None) are np.max(x) / np.sum(x)   (ufunc.reduce defaults to axis 0:
         # the same thing for the 1-d sequences and lists of scalars it is used on; an explicit axis is kept)
-        kw2 = tuple((k_, v_) for k_, v_ in kw if not (k_ == "axis" and (is_const(v_, None) or is_const(v_, 0))))
+        kw2 = tuple((k_, v_) for k_, v_ in kw if not (k_ == "axis" and is_const(v_, None)))
         if len(args) == 1:
             return call(ext(_REDUCE_ALIASES[name]), args, kw2)
     if name in _AXIS_SECOND and len(args) == 2 and not any(k_ == "axis" for k_, _ in kw):
@@ -551,7 +551,11 @@ def call(fn, args=(), kw=()):
     if name == "np.full" and len(args) == 2 and args[1].op == "const" and not isinstance(args[1].a[0], bool) and isinstance(args[1].a[0], float) and args[1].a[0] in (0.0, 1.0) and not any(k_ == "dtype" for k_, _ in kw):
         # np.full(n, 0.0) is np.zeros(n); np.full(n, 1.0) is np.ones(n)
         return call(ext("np.zeros" if args[1].a[0] == 0.0 else "np.ones"), (args[0],), kw)
-    if name == "np.asarray" and len(args) == 1 and len(kw) == 1 and kw[0][0] == "dtype" and args[0].op in ("cmp", "bool"):
+    if name in ("np.zeros", "np.ones", "np.empty", "np.full") and args and args[0].op in ("tuple", "list") and len(args[0].a) == 1 and args[0].a[0].op != "star":
+        return call(fn, (args[0].a[0],) + tuple(args[1:]), kw)  # np.zeros((n,)) is np.zeros(n)
+    if name in ("np.empty", "np.zeros") and len(args) == 1 and not kw and is_const(args[0], 0):
+        return call(ext("np.array"), (lst([]),))  # np.empty(0) is np.array([])
+    if name == "np.asarray" and len(args) == 1 and len(kw) == 1 and kw[0][0] == "dtype" and (args[0].op in ("cmp", "bool") or (args[0].op in ("call", "sub", "param", "loop", "loopvar", "upd", "bin", "iter") and ((kw[0][1].op == "builtin" and kw[0][1].a[0] == "int") or (kw[0][1].op == "ext" and kw[0][1].a[0].startswith("np.int"))))):
         return call(ext("astype"), (args[0], kw[0][1]))  # np.asarray(mask, dtype=T) is mask.astype(T)
     if name == "re.match" and len(args) == 2 and not kw and args[0].op == "glob":
         return method_call(args[0], "match", (args[1],))  # re.match(PATTERN, s) is PATTERN.match(s)
